@@ -21,10 +21,10 @@ set_option linter.unreachableTactic false
 
 variable {K : Type} [Field K] (c c3 : K) (fn : Fns K)
 
-/-- evaluate both sides; identical up to re-association of products (else normalise as polynomials) -/
+/-- evaluate both sides; syntactically identical, or identical up to re-association of products (the variants share their code text; no polynomial normalisation is attempted, so a discrepancy fails fast) -/
 macro "same_expr" : tactic => `(tactic| first
   | (simp only [eval]; done)
-  | (simp only [eval]; first | rfl | (simp only [mul_assoc]; done) | ring_nf))
+  | (simp only [eval, mul_assoc]; done))
 
 
 /-- Drucker 1949, N = 1 -/
